@@ -102,6 +102,7 @@ ReqsFam == { MkReq({"tcp80"}, "", "", "v4", "S", FALSE),
              MkReq({"tcp80"}, "", "", "dual", "R", FALSE),
              MkReq({"tcp80"}, "", "", "dual", "P", FALSE),
              MkReq({"tcp80"}, "", "", "dual", "P", TRUE),
+             MkReq({"tcp80"}, "", "", "dual", "R", TRUE),
              MkReq({"tcp80"}, "k1", "", "dual", "P", FALSE),
              MkReq({"tcp443"}, "k1", "", "v4", "S", FALSE) }
 ReqsFamAssign == { MkReq({"tcp80"}, "", "", "v4", "S", FALSE),
